@@ -107,7 +107,7 @@ def run_case(ctx, case):
             res.absorb(ex, outs)
             for i, o in enumerate(outs):
                 goal = T.B(T.eq(o.value.t, k)) if o.kind == "return" else False
-                res.vc(ctx, "%s|k=%d|path%d" % (case["id"], k, i), o.state.constraints(), goal, {"x": x.t}, {"k": k})
+                res.vc(ctx, "%s|k=%d|path%d" % (case["id"], k, i), o.state.constraints(), goal, {"x": x.t}, {"k": k, "kind": "K0"})
         return res.done()
     if kind == "K1":
         f = get_fn(prog, "u128_mul_u128", ["u128", "u128"])
@@ -123,7 +123,7 @@ def run_case(ctx, case):
                 goal = z3.And(hi * B128 + lo == x.t * y.t, T.in_range(hi, "u128"), T.in_range(lo, "u128"))
             else:
                 goal = False
-            r = res.vc(ctx, "%s|path%d:%s" % (case["id"], i, o.kind), o.state.constraints(), goal, {"x": x.t, "y": y.t}, {}, tmo)
+            r = res.vc(ctx, "%s|path%d:%s" % (case["id"], i, o.kind), o.state.constraints(), goal, {"x": x.t, "y": y.t}, {"kind": "K1"}, tmo)
             res.sample({"vc": case["id"], "status": r.status, "time_s": round(r.time, 3)})
             # reachability witness: the same VC with a false goal must be refutable
             w = check_vc(o.state.constraints(), False, 10000)
@@ -335,9 +335,26 @@ def replay(ctx, native, v):
         if c == I128_MIN and obs == ("NONE",):
             exp = obs
         return {"reproduced": obs != exp, "line": line, "observed": obs, "expected": exp, "profile": "dev"}
-    # K0-K2 are private functions: replay through the public wide-division entry point
+    # K0-K2 are private functions: replayed through the cfg(fpdec_verif) hooks of fpdec-core
     if kind in ("K2a", "K2b", "K2c"):
-        return {"reproduced": False, "line": "", "observed": "private kernel; no public entry with these operands", "expected": ""}
+        op = {"K2a": "h_idiv64", "K2b": "h_special", "K2c": "h_idiv"}[kind]
+        line = "5 %s %d %d %d" % (op, i["xh"], i["xl"], i["y"])
+        obs = nat.ask(line)
+        X = (i["xh"] << 128) + i["xl"]
+        Q, r = divmod(X, i["y"])
+        exp = "TRIPLE %d %d %d" % (Q >> 128, Q & ((1 << 128) - 1), r)
+        return {"reproduced": obs != exp, "line": line, "observed": obs, "expected": exp, "profile": "dev"}
+    if kind == "K1":
+        line = "5 h_mul %d %d" % (i["x"], i["y"])
+        obs = nat.ask(line)
+        P = i["x"] * i["y"]
+        exp = "PAIRU %d %d" % (P >> 128, P & ((1 << 128) - 1))
+        return {"reproduced": obs != exp, "line": line, "observed": obs, "expected": exp, "profile": "dev"}
+    if kind == "K0":
+        line = "5 h_msb %d" % i["x"]
+        obs = nat.ask(line)
+        exp = "INT %d" % (i["x"].bit_length() - 1)
+        return {"reproduced": obs != exp, "line": line, "observed": obs, "expected": exp, "profile": "dev"}
     return {"reproduced": False, "line": "", "observed": "no replay for " + str(kind), "expected": ""}
 
 
